@@ -88,8 +88,14 @@ func checkC04(c *Ctx) {
 	c.Rule("R3 remainder.complete: the remainder literal built in PartialContent copies every other field of the receiver (source items, ranges, expansion state, marks)")
 	c.Rule("R4 hidden.honoured: each of Content, PartialContent and JustAttributes reads the hidden attribute set (directly or through a callee it hands the receiver to)")
 	c.Rule("R5 content.shared: Content is implemented as PartialContent plus a leftover report, or both go through the same helpers (their sets of module callees agree apart from the underlying body's Content/PartialContent)")
+	c.Rule("R11 leftover.source: the loops of Content that decide by a hidden-set lookup which items are left over range over the same receiver item sources (a field, or the result of a receiver method) as PartialContent extracts from")
+	c.Rule("R10 hidden.filter: in every method of such a type, inside a loop that looks an item's name up in a hidden set, every insertion into the result of that kind (a store into an hcl.Attributes map; an append to hcl.Blocks) is dominated by the not-hidden edge of such a lookup")
+	nFilter := 0
 	for _, bi := range bodies {
 		tname := bi.pkg + "." + bi.named.Obj().Name()
+		if len(bi.hidden) > 0 {
+			nFilter += c04HiddenFilter(c, bi, tname)
+		}
 		pc := lookupMethod(c, bi, "PartialContent")
 		co := lookupMethod(c, bi, "Content")
 		ja := lookupMethod(c, bi, "JustAttributes")
@@ -104,12 +110,14 @@ func checkC04(c *Ctx) {
 		if len(bi.hidden) == 0 {
 			continue
 		}
+		c04LeftoverSource(c, bi, tname, co, pc)
 		c04HiddenFresh(c, bi, tname, pc)
 		c04SelfFeed(c, bi, tname, pc)
 		c04ReadOnly(c, bi, tname)
 		c04RemainderComplete(c, bi, tname, pc)
 		c04Honoured(c, bi, tname, map[string]*ssa.Function{"Content": co, "PartialContent": pc, "JustAttributes": ja})
 	}
+	c.Floor("hidden.filter insertions", nFilter, 7, "filtered insertions in hclsyntax.Body, json.body and dynblock.expandBody")
 	c04MergedRequired(c)
 	c04CopyIntoEmpty(c)
 	c04DeadFieldStore(c)
@@ -786,4 +794,297 @@ func c04DeadFieldStore(c *Ctx) {
 		c.OK("rangecopy.store", "all", token.NoPos, fmt.Sprintf("%d local struct copies with field stores are all read afterwards", n))
 	}
 	c.Floor("rangecopy.store candidates", n, 1, "mergedAttrS in mergedContent")
+}
+
+// R10 hidden.filter: in every method of a Body implementation, inside a loop that looks an item's
+// name up in a hidden set, every insertion into the result of that kind (a store into an
+// hcl.Attributes map for the attribute set, an append to hcl.Blocks for the block set) lies on the
+// not-hidden side of such a lookup.
+func c04HiddenFilter(c *Ctx, bi bodyImpl, tname string) int {
+	kindOf := func(h *types.Var) string {
+		if strings.Contains(strings.ToLower(h.Name()), "attr") {
+			return "attrs"
+		}
+		return "blocks"
+	}
+	n := 0
+	for _, fn := range c.P.pkgFuncs(bi.pkg) {
+		root := fn
+		for root.Parent() != nil {
+			root = root.Parent()
+		}
+		if root.Signature.Recv() == nil || namedOf(root.Signature.Recv().Type()) != bi.named {
+			continue
+		}
+		// maps that become hidden sets of a remainder built here
+		fresh := map[ssa.Value]*types.Var{}
+		for _, al := range complitsOf(fn, bi.named) {
+			for _, h := range bi.hidden {
+				for _, st := range fieldStores(al, h) {
+					fresh[st.Val] = h
+				}
+			}
+		}
+		hiddenSet := func(v ssa.Value) *types.Var {
+			if h, ok := fresh[v]; ok {
+				return h
+			}
+			if u, ok := v.(*ssa.UnOp); ok && u.Op == token.MUL {
+				if fa, ok := u.X.(*ssa.FieldAddr); ok {
+					fv := fieldVarOf(fa.X.Type(), fa.Field)
+					for _, h := range bi.hidden {
+						if fv == h {
+							return h
+						}
+					}
+				}
+			}
+			return nil
+		}
+		for _, scc := range sccBlocks(fn.Blocks, nil) {
+			if len(scc) < 2 {
+				continue
+			}
+			// not-hidden regions per kind
+			regions := map[string][]*ssa.BasicBlock{}
+			lookups := map[string]token.Pos{}
+			undecided := ""
+			for _, b := range scc {
+				for _, ins := range b.Instrs {
+					lk, ok := ins.(*ssa.Lookup)
+					if !ok || !lk.CommaOk {
+						continue
+					}
+					h := hiddenSet(lk.X)
+					if h == nil {
+						continue
+					}
+					k := kindOf(h)
+					lookups[k] = lk.Pos()
+					// the found bit and the branches on it
+					for _, r := range *lk.Referrers() {
+						ex, ok := r.(*ssa.Extract)
+						if !ok || ex.Index != 1 {
+							continue
+						}
+						for _, rr := range *ex.Referrers() {
+							var iff *ssa.If
+							neg := false
+							switch y := rr.(type) {
+							case *ssa.If:
+								iff = y
+							case *ssa.UnOp:
+								if y.Op == token.NOT {
+									for _, r3 := range *y.Referrers() {
+										if i3, ok := r3.(*ssa.If); ok {
+											iff, neg = i3, true
+										}
+									}
+								}
+							}
+							if iff == nil {
+								if _, isDbg := rr.(*ssa.DebugRef); !isDbg {
+									undecided = "the result of the hidden-set lookup is used other than in a branch"
+								}
+								continue
+							}
+							side := 1 // not found: false edge
+							if neg {
+								side = 0
+							}
+							succ := iff.Block().Succs[side]
+							if len(succ.Preds) == 1 {
+								regions[k] = append(regions[k], succ)
+							}
+						}
+					}
+				}
+			}
+			if len(lookups) == 0 {
+				continue
+			}
+			for _, b := range scc {
+				for _, ins := range b.Instrs {
+					kind := ""
+					var pos token.Pos
+					switch x := ins.(type) {
+					case *ssa.MapUpdate:
+						if mt, ok := x.Map.Type().Underlying().(*types.Map); ok {
+							if pt, ok := mt.Elem().(*types.Pointer); ok {
+								if nt := namedOf(pt.Elem()); nt != nil && nt.Obj().Name() == "Attribute" && nt.Obj().Pkg().Path() == modPath {
+									kind, pos = "attrs", x.Pos()
+								}
+							}
+						}
+					case *ssa.Call:
+						if bt, ok := x.Call.Value.(*ssa.Builtin); ok && bt.Name() == "append" {
+							if nt := namedOf(x.Type()); nt != nil && nt.Obj().Name() == "Blocks" && nt.Obj().Pkg().Path() == modPath {
+								kind, pos = "blocks", x.Pos()
+							}
+						}
+					}
+					if kind == "" {
+						continue
+					}
+					if _, has := lookups[kind]; !has {
+						continue
+					}
+					n++
+					c.Sites++
+					key := fmt.Sprintf("%s:%s", FuncName(fn), kind)
+					if undecided != "" {
+						c.Undecided("hidden.filter", key, pos, undecided)
+						continue
+					}
+					ok := false
+					for _, r := range regions[kind] {
+						if r == b || r.Dominates(b) {
+							ok = true
+						}
+					}
+					c.Check(ok, "hidden.filter", key, pos, "inserted only on the not-hidden side of the lookup",
+						"an item is put into the result on a path that has not found its name absent from the hidden set, in a loop that filters by that set: items consumed by an earlier PartialContent are returned again by a later call on the remaining body")
+				}
+			}
+		}
+	}
+	return n
+}
+
+// R11 leftover.source: the loops of Content that decide, by a hidden-set lookup, which items are
+// left over range over the same item sources of the receiver (a field, or the result of a receiver
+// method) as the extraction in PartialContent does.
+func c04LeftoverSource(c *Ctx, bi bodyImpl, tname string, co, pc *ssa.Function) {
+	isHidden := func(fv *types.Var) bool {
+		for _, h := range bi.hidden {
+			if h == fv {
+				return true
+			}
+		}
+		return false
+	}
+	var describe func(fn *ssa.Function, v ssa.Value, d int) string
+	describe = func(fn *ssa.Function, v ssa.Value, d int) string {
+		if v == nil || d > 8 {
+			return ""
+		}
+		switch x := v.(type) {
+		case *ssa.UnOp:
+			if x.Op == token.MUL {
+				if fa, ok := x.X.(*ssa.FieldAddr); ok {
+					if inner := describe(fn, fa.X, d+1); inner != "" && inner != "recv" {
+						return inner
+					}
+					if fa.X == ssa.Value(fn.Params[0]) || isSpillOf(fa.X, fn.Params[0]) {
+						fv := fieldVarOf(fa.X.Type(), fa.Field)
+						if fv != nil && !isHidden(fv) {
+							return "field " + fv.Name()
+						}
+					}
+					return ""
+				}
+				if al, ok := x.X.(*ssa.Alloc); ok {
+					if st := reachingStore(al, x); st != nil {
+						return describe(fn, st.Val, d+1)
+					}
+				}
+				return describe(fn, x.X, d+1)
+			}
+		case *ssa.FieldAddr:
+			return describe(fn, &ssa.UnOp{Op: token.MUL, X: x}, d+1)
+		case *ssa.Field:
+			return describe(fn, x.X, d+1)
+		case *ssa.TypeAssert:
+			return describe(fn, x.X, d+1)
+		case *ssa.Extract:
+			return describe(fn, x.Tuple, d+1)
+		case *ssa.ChangeType:
+			return describe(fn, x.X, d+1)
+		case *ssa.MakeInterface:
+			return describe(fn, x.X, d+1)
+		case *ssa.Call:
+			if cal := x.Call.StaticCallee(); cal != nil && cal.Signature.Recv() != nil && namedOf(cal.Signature.Recv().Type()) == bi.named {
+				return "method " + cal.Name()
+			}
+		case *ssa.Phi:
+			for _, e := range x.Edges {
+				if s := describe(fn, e, d+1); s != "" {
+					return s
+				}
+			}
+		}
+		return ""
+	}
+	hiddenLookup := func(v ssa.Value) bool {
+		if u, ok := v.(*ssa.UnOp); ok && u.Op == token.MUL {
+			if fa, ok := u.X.(*ssa.FieldAddr); ok {
+				return isHidden(fieldVarOf(fa.X.Type(), fa.Field))
+			}
+		}
+		return false
+	}
+	sources := func(fn *ssa.Function, onlyFiltered bool) map[string]token.Pos {
+		out := map[string]token.Pos{}
+		for _, scc := range sccBlocks(fn.Blocks, nil) {
+			if len(scc) < 2 {
+				continue
+			}
+			filtered := false
+			for _, b := range scc {
+				for _, ins := range b.Instrs {
+					if lk, ok := ins.(*ssa.Lookup); ok && lk.CommaOk && hiddenLookup(lk.X) {
+						filtered = true
+					}
+				}
+			}
+			if onlyFiltered && !filtered {
+				continue
+			}
+			for _, b := range scc {
+				for _, ins := range b.Instrs {
+					switch x := ins.(type) {
+					case *ssa.IndexAddr:
+						if isRangeIndex(x.Index) {
+							if s := describe(fn, x.X, 0); s != "" {
+								out[s] = x.Pos()
+							}
+						}
+					case *ssa.Next:
+						if rg, ok := x.Iter.(*ssa.Range); ok {
+							if s := describe(fn, rg.X, 0); s != "" {
+								out[s] = rg.Pos()
+							}
+						}
+					case *ssa.Lookup:
+						if !onlyFiltered && !hiddenLookup(x.X) {
+							if s := describe(fn, x.X, 0); s != "" {
+								out[s] = x.Pos()
+							}
+						}
+					}
+				}
+			}
+		}
+		return out
+	}
+	left := sources(co, true)
+	if len(left) == 0 {
+		return
+	}
+	have := sources(pc, false)
+	var names []string
+	for s := range left {
+		names = append(names, s)
+	}
+	sort.Strings(names)
+	for _, s := range names {
+		_, ok := have[s]
+		var all []string
+		for h := range have {
+			all = append(all, h)
+		}
+		sort.Strings(all)
+		c.Check(ok, "leftover.source", tname+".Content:over["+s+"]", left[s], "PartialContent extracts from the same source",
+			"Content decides what is left over by ranging over "+s+" of the receiver, which PartialContent does not extract from (it uses "+strings.Join(all, ", ")+"): items PartialContent can see are never reported as unexpected, or the reverse")
+	}
 }
